@@ -175,6 +175,11 @@ func exhaustiveTable() []caseDef {
 		c := base("updater.UnpackArchive", shared.OpUnpackArchive, stAbsent, tmpSandbox)
 		c.StaleTmp = true
 		add(c)
+		for _, dmg := range []string{"truncated_stream", "overstated_size"} {
+			d := base("updater.UnpackArchive(entry data ends early)", shared.OpUnpackArchive, stAbsent, tmpSandbox)
+			d.Damage = dmg
+			add(d)
+		}
 		c = base("updater.UnpackArchive(bad archive)", shared.OpUnpackArchive, stAbsent, tmpSandbox)
 		c.BadArchive = true
 		add(c)
@@ -475,6 +480,7 @@ func genCase(t *rapid.T) caseDef {
 		{"updater.DownloadUpdates(missing signature)", shared.OpDownloadAll, []string{stPresent}, []string{tmpSandbox}},
 		{"updater.UnpackArchive", shared.OpUnpackArchive, []string{stAbsent, stAbsent, stAbsent, stPresent, stBlocked}, []string{tmpSandbox}},
 		{"updater.UnpackArchive(bad archive)", shared.OpUnpackArchive, []string{stAbsent}, []string{tmpSandbox}},
+		{"updater.UnpackArchive(entry data ends early)", shared.OpUnpackArchive, []string{stAbsent}, []string{tmpSandbox}},
 		{"updater.File.Unpack", shared.OpFileUnpack, []string{stAbsent, stAbsent, stPresent}, []string{tmpSandbox}},
 	}
 	v := variants[rapid.IntRange(0, len(variants)-1).Draw(t, "writer")]
@@ -514,6 +520,9 @@ func genCase(t *rapid.T) caseDef {
 	c.Verify = strings.Contains(v.writer, "sign")
 	c.SigOnly = strings.Contains(v.writer, "missing signature")
 	c.BadArchive = strings.Contains(v.writer, "bad archive")
+	if strings.Contains(v.writer, "ends early") {
+		c.Damage = rapid.SampledFrom([]string{"truncated_stream", "overstated_size"}).Draw(t, "damage")
+	}
 	switch v.op {
 	case shared.OpGetFile, shared.OpDownloadAll, shared.OpUnpackArchive:
 		c.StaleTmp = rapid.Bool().Draw(t, "stale_tmp")
